@@ -25,13 +25,25 @@ class _Lock:
 
 
 def ensure_built(timeout=3000):
-    """Incremental full (.vo) build of the whole development. Returns (ok, log_tail)."""
+    """Incremental full (.vo) build of the whole development, keeping going past a file that does not compile
+    (so that a broken obligation of one property does not take the others with it).  A file whose compilation
+    failed must not leave an older .vo behind: those are removed, and whatever imports them then fails to load.
+    Returns (ok, log_tail)."""
     with _Lock():
-        if not os.path.exists(os.path.join(COQ, "Makefile")):
+        if not os.path.exists(os.path.join(COQ, "Makefile")) or \
+                os.path.getmtime(os.path.join(COQ, "_CoqProject")) > os.path.getmtime(os.path.join(COQ, "Makefile")):
             subprocess.run(["coq_makefile", "-f", "_CoqProject", "-o", "Makefile"], cwd=COQ,
                            stdout=subprocess.DEVNULL, stderr=subprocess.DEVNULL)
-        p = subprocess.run(["timeout", str(timeout), "make", "-j16"], cwd=COQ, stdout=subprocess.PIPE,
+        p = subprocess.run(["timeout", str(timeout), "make", "-k", "-j16"], cwd=COQ, stdout=subprocess.PIPE,
                            stderr=subprocess.STDOUT, text=True)
+        if p.returncode != 0:
+            for sub in ("theories", "gen", "props"):
+                d = os.path.join(COQ, sub)
+                for f in os.listdir(d):
+                    if f.endswith(".v"):
+                        vo = os.path.join(d, f + "o")
+                        if os.path.exists(vo) and os.path.getmtime(vo) < os.path.getmtime(os.path.join(d, f)):
+                            os.remove(vo)
         return p.returncode == 0, p.stdout[-4000:]
 
 
